@@ -481,7 +481,43 @@ def to2d(rows, ncols_hint=None):
     return a
 
 
-def compare_case(model, code, Z, rec):
+AMP_SKIP = 1e-4     # an interface matrix whose forward error bound exceeds this (relative) is not compared
+
+
+def interface_tolerances(Z, calls):
+    """Relative tolerance for the matrix A of every recorded lstsq call, from the implementation's own data.
+    A of mode k+1 holds rows of Phi_{k+1} = Phi_k G_k.  Two evaluations of that product (BLAS order in numpy,
+    left-to-right sums in the model) and a relative perturbation t_k of Phi_k differ by at most
+    (t_k + gamma) * max(|Phi_k| |G_k|), gamma ~ r * 2^-52, which relative to max|Phi_{k+1}| is amplified by
+    f_k = max(|Phi_k| |G_k|) / max|Phi_{k+1}| (f_k ~ 1..10 for a consistent, well-conditioned run; huge when an
+    earlier truncation made the systems numerically singular AND inconsistent, so that lstsq returned a core with
+    entries ~ 1/eps).  t_1 = TOL, t_{k+1} = (t_k + gamma) * max(1, f_k).  Returns ({call index: t}, max f)."""
+    tol, fmax = {}, 1.0
+    pos = [k for k, c in enumerate(calls) if c['kind'] == 'lstsq']
+    t, at = TOL, 0
+    for mode in range(1, len(Z)):
+        cnt = Z[mode].shape[1]
+        grp = pos[at:at + cnt]
+        at += cnt
+        for k in grp:
+            tol[k] = t
+        if not grp or mode + 1 >= len(Z) or at >= len(pos):
+            continue
+        A = np.abs(np.asarray(calls[grp[0]]['A'], dtype=float))
+        nxt = np.abs(np.asarray(calls[pos[at]]['A'], dtype=float))
+        G = np.abs(np.asarray(Z[mode], dtype=float))
+        if A.ndim != 2 or nxt.ndim != 2 or A.shape[1] != G.shape[0] or not A.size or not nxt.size:
+            continue
+        ea, eg = pow2_exp(A), pow2_exp(G)
+        prod = max(float((np.ldexp(A, -ea) @ np.ldexp(G[:, v, :], -eg)).max()) for v in range(G.shape[1]))
+        den = float(np.ldexp(nxt, -(ea + eg)).max())
+        f = prod / den if den > 0 else np.inf
+        fmax = max(fmax, f)
+        t = (t + 4 * G.shape[0] * 2.0 ** -52) * max(1.0, f)
+    return tol, fmax
+
+
+def compare_case(model, code, Z, rec, stats=None):
     """model: parsed showst value; returns None or a description of the first difference"""
     mcode, (mcores, mtrace) = model
     if mcode != code:
@@ -498,6 +534,11 @@ def compare_case(model, code, Z, rec):
             return f'core {k}: values differ by {float(np.abs(Gm - Gi).max()):.3e}'
     if len(mtrace) != len(rec.calls):
         return f'number of oracle calls: model {len(mtrace)} implementation {len(rec.calls)}'
+    tolA, fmax = interface_tolerances(Z, rec.calls)
+    if stats is not None:
+        stats['amplification_max'] = max(stats.get('amplification_max', 1.0), fmax if np.isfinite(fmax) else 1e308)
+        stats['tolA_max_compared'] = max([stats.get('tolA_max_compared', TOL)] + [t for t in tolA.values() if t <= AMP_SKIP])
+        stats['A_not_comparable'] = stats.get('A_not_comparable', 0) + sum(1 for t in tolA.values() if t > AMP_SKIP)
     for k, (cm, ci) in enumerate(zip(mtrace, rec.calls)):
         kind, (Am, bm) = cm
         if kind != (0 if ci['kind'] == 'svd' else 1):
@@ -512,8 +553,10 @@ def compare_case(model, code, Z, rec):
                 return f'lstsq call {k}: implementation passed arrays of ndim {ci["A"].ndim}, {ci["b"].ndim}'
             if Am.shape != ci['A'].shape and Am.size:
                 return f'lstsq call {k}: A shape model {Am.shape} implementation {ci["A"].shape}'
-            if Am.size and not close(Am, ci['A'], TOL):
-                return f'lstsq call {k}: A differs by {float(np.abs(Am - ci["A"]).max()):.3e}'
+            tk = tolA.get(k, TOL)
+            if Am.size and tk <= AMP_SKIP and not close(Am, ci['A'], tk):
+                return (f'lstsq call {k}: A differs by {float(np.abs(Am - ci["A"]).max()):.3e} '
+                        f'(max|A| {float(np.abs(ci["A"]).max()):.3e}, relative tolerance {tk:.1e})')
             if bm.shape != ci['b'].shape and bm.size:
                 return f'lstsq call {k}: b shape model {bm.shape} implementation {ci["b"].shape}'
             if bm.size and not close(bm, ci['b'], TOL):
@@ -546,7 +589,7 @@ def corr_float(R, ctx, tn):
     rng = ctx['rng']
     N = 320 if ctx['thorough'] else 80
     terms, cmps, inputs = [], [], []
-    dist = dict(family={}, d={}, rho={}, m={}, cap={}, forms={}, impl_raised=0, svd_calls=0, lstsq_calls=0,
+    dist = dict(family={}, d={}, rho={}, m={}, cap={}, forms={}, amp={}, impl_raised=0, svd_calls=0, lstsq_calls=0,
                 contract_bad=[])
     for t in range(N):
         cfg = gen_case(rng, t, ctx['thorough'])
@@ -582,11 +625,13 @@ def corr_float(R, ctx, tn):
                 dist['skeleton_tail_max'] = max(dist.get('skeleton_tail_max', 0.0),
                                                 float(np.sqrt(np.sum((tail / sc) ** 2))) if len(tail) else 0.0)
         terms.append(coq_term(I, y, idx, idm, cfg['e'], cfg['cap'], rec.calls))
-        cmps.append(lambda v, code=code, Z=Z, rec=rec: compare_case(v, code, Z, rec))
+        cmps.append(lambda v, code=code, Z=Z, rec=rec, fam=cfg['fam']: compare_case(v, code, Z, rec, dist['amp'].setdefault(fam, {})))
         inputs.append(dict(fn='svd_incomplete', **cfg))
     bad = tolerant_stream(R, 'svd_incomplete_float_replay', terms, cmps, inputs, 6, dist,
                           f'error class, number/kind of oracle calls, core shapes: exact; svd arguments: bitwise; '
-                          f'lstsq arguments and cores: relative {TOL}')
+                          f'cores and lstsq right-hand sides: relative {TOL}; lstsq matrices (interface vectors): relative {TOL} times '
+                          f'the forward-error amplification of the interface products computed from the recorded data '
+                          f'(not compared beyond {AMP_SKIP}; see distribution.amp per family)')
     if dist['contract_bad']:
         R.corr.append(dict(name='oracle contracts on recorded calls', cases=dist['svd_calls'] + dist['lstsq_calls'],
                            mismatches=len(dist['contract_bad']), first_mismatches=dist['contract_bad'][:3]))
